@@ -7,7 +7,7 @@ import warnings
 from . import formats_common as fc
 from .common import Oracle, Suite, errname, merge
 
-GEN_UNITS = ["Contexts", "B64", "Handlers", "PyUnicode", "PyCase", "StaticFmt", "Disabled"]
+GEN_UNITS = ["Contexts", "B64", "Handlers", "PyUnicode", "PyCase", "StaticFmt", "Disabled", "Registry"]
 LEAN_TARGETS = ["PasslibVerif.Props.C17"]
 ASSUMPTIONS = [
     "the format models behind the shapes are the real hashers' from_string / to_string / identify: checked by ./check C07 and, for identify of all 76 registered names, again here",
